@@ -16,7 +16,11 @@ from vlib import hx, unhx
 
 
 def offset_of(text, line, col):
+    """index, in the file as it is read back, of the character the compiler places at (line, col): a leading byte-order mark is
+    in the file but not in the compiler's columns of line 1"""
     lines = text.split("\n")
+    if line == 1 and text.startswith(textgen.BOM):
+        col += 1
     return sum(len(l) + 1 for l in lines[:line - 1]) + col
 
 
@@ -144,7 +148,6 @@ def run(res):
                     "where Span::join succeeds), rustc for the layout programs (where it does not)",
                     "tools/textgen.py: the statement of what (line, character column) the compiler records for a position",
                     "tools/patgen.py: the generator's record of where it wrote every sub-pattern"]
-    res.assumptions += ["a byte-order mark at the start of the file is not covered (rustc strips it, the run-time file read does not)"]
     vlib.build_coq()
     ths, rep = vlib.check_props("C04")
     res.obligations += ths
@@ -157,15 +160,20 @@ def run(res):
     # (1) run-time half: (line, character column) -> byte offset, every position of random texts
     rng = random.Random(res.seed * 3 + 4)
     cases = []
-    for _ in range(150 if res.tier == "quick" else 3000):
+
+    def positions(text):
+        # the positions the compiler assigns: over the text without a leading byte-order mark
+        seen = textgen.strip_bom(text)
+        for i in range(len(seen) + 1):
+            l, c = textgen.linecol(seen, i)
+            cases.append("offset\t%s\t%d\t%d\t#%d" % (hx(text), l, c, i))
+    for k in range(150 if res.tier == "quick" else 3000):
         text = textgen.rand_text(rng)
-        for i in range(len(text) + 1):
-            l, c = textgen.linecol(text, i)
-            cases.append("offset\t%s\t%d\t%d\t#%d" % (hx(text), l, c, i))
-    for text in ["é", "a\r\nb", "\t\tx", "日本語日本語日本語, age: 31", "😀😀\n😀x"]:
-        for i in range(len(text) + 1):
-            l, c = textgen.linecol(text, i)
-            cases.append("offset\t%s\t%d\t%d\t#%d" % (hx(text), l, c, i))
+        if k % 5 == 4:
+            text = textgen.BOM + text          # a file saved with a byte-order mark
+        positions(text)
+    for text in ["é", "a\r\nb", "\t\tx", "日本語日本語日本語, age: 31", "😀😀\n😀x", "\ufeffx=", "\ufeff", "\ufeff\n\ufeffy", "\ufeffé=1\r\n\té", "x\ufeff=", "\ufeff\ufeffz"]:
+        positions(text)
     impl = vlib.run_harness("rt", cases)
     model = vlib.run_model(cases)
     name1 = "correspondence:byte_offset_of"
@@ -175,7 +183,7 @@ def run(res):
         f = line.split("\t")
         text = unhx(f[1]).decode("utf-8")
         i = int(f[4][1:])
-        want = textgen.prefix_bytes(text, i)
+        want = textgen.file_offset(text, i)
         if o == "PANIC":
             return "byte_offset_of panics for character %d of the text (line %s, column %s)" % (i, f[2], f[3])
         if int(o) != want:
@@ -238,7 +246,19 @@ def run(res):
         for i, (c, pat, st_) in enumerate(chunk[b:b + per]):
             body.append("    run_case(\"%d\", || { %s let v: %s = %s; assert_struct!(v,\n    %s\n    ); });"
                         % (b + i, semgen.CALLER_LETS, c["type"], c["value_rust"], pat))
-        progs.append(e2e.PRELUDE + semgen.DECLS + "fn main() {\n    std::panic::set_hook(Box::new(|_| {}));\n" + "\n".join(body) + "\n}\n")
+        # every other file is saved with a byte-order mark: the compiler drops it before it numbers anything, the file read back
+        # at run time still begins with it
+        progs.append((textgen.BOM if (b // per) % 2 == 1 else "") + e2e.PRELUDE + semgen.DECLS
+                     + "fn main() {\n    std::panic::set_hook(Box::new(|_| {}));\n" + "\n".join(body) + "\n}\n")
+    # ... and one such file whose FIRST line holds the assertions (the one line whose columns the mark shifts)
+    first = [(c, c["pattern"], "bom-first-line") for c in base[len(chunk):] if "\n" not in c["pattern"] and "//" not in c["pattern"]][:12]
+    attr, rest_prelude = e2e.PRELUDE.lstrip("\n").split("\n", 1)
+    body1 = ["run_case(\"%d\", || { %s let v: %s = %s; assert_struct!(v, %s); });"
+             % (len(chunk) + i, semgen.CALLER_LETS.replace("\n", " "), c["type"], c["value_rust"].replace("\n", " "), pat) for i, (c, pat, _) in enumerate(first)]
+    if first and attr.startswith("#![") and all("\n" not in x for x in body1):
+        progs.append(textgen.BOM + attr + " fn main() { std::panic::set_hook(Box::new(|_| {})); " + " ".join(body1) + " }\n"
+                     + rest_prelude + semgen.DECLS)
+        chunk = chunk + first
     out = e2e.compile_many(progs, run=True, tag="c04")
     # which sub-patterns failed, going by the specification (Spec.frontier on the same triple): an entry must be attached to the
     # sub-pattern that failed — not to its parent, a sibling or a child that happens to have a well-formed range of its own
@@ -297,7 +317,8 @@ def run(res):
                                       {"case": cid, "source_lines": src.split("\n")[ls - 2:le + 1], "entry": p})
     e2e.cleanup("c04")
     res.streams["layouts_under_rustc"] = {"assertions": len(chunk), "entries_checked": marks, "rendered_spans_checked": rendered_spans, "failures": lay_fail,
-                                          "styles": {s: sum(1 for x in chunk if x[2] == s) for s in styles}}
+                                          "styles": {s: sum(1 for x in chunk if x[2] == s) for s in styles + ["bom-first-line"]},
+                                          "files_with_a_byte_order_mark": sum(1 for p_ in progs if p_.startswith(textgen.BOM))}
     res.streams["in_process_locations"] = {"nodes_checked": nodes_checked, "invocations_with_problems": failing}
     name3 = "oracle:marked text under rustc is the node's own text"
     res.obligations.append(name3)
